@@ -50,7 +50,8 @@ pub assume_specification<Idx: Clone> [<std::ops::Range<Idx> as Clone>::clone] (r
     im.resub(r'let char_byte_offsets: Vec<usize> = line\s*\.char_indices\(\).*?\.collect\(\);', 'let char_byte_offsets = char_byte_offsets_of(line);', 'R14', 'iterator chain building the char->byte offset table -> stub', flags=16)
     im.resub(r'[ \t]*let byte_offset = \|char_offset: usize\| \{.*?\n[ \t]*\};\n', '', 'R14', 'lookup closure over the table -> named stub byte_offset_of (calls rewritten)', flags=16)
     im.resub(r'\bbyte_offset\(([^()]*(?:\([^()]*\))?[^()]*)\)', r'byte_offset_of(&char_byte_offsets, \1)', 'R14', 'closure call -> stub call', count=None)
-    im.resub(r'\bline\.get\((\w+)\.\.(\w+)\)\.unwrap_or\(""\)', r'str_get_or_empty(line, \1, \2)', 'R19', 'str::get(range).unwrap_or("") -> stub', count=None)
+    im.resub(r'\bline\s*\.get\((\w+)\.\.(\w+)\)\s*\.unwrap_or\(""\)', r'str_get_or_empty(line, \1, \2)', 'R19', 'str::get(range).unwrap_or("") -> stub', count=None)
+    im.resub(r'str_get_or_empty\(line, (\w+), (\w+)\)\s*\.trim(?:_start|_end)?(?:_matches)?\((?:[^()]|\([^()]*\))*\)', r'str_some_trimmed(str_get_or_empty(line, \1, \2))', 'R14', 'a trim of the raw slice -> stub (some sub-slice of it)', count=None)
     im.resub(r'tokens\.sort_by_key\(\|token\| token\.location\(\)\.start\.index\);', 'sort_tokens_by_start(&mut tokens);', 'R14', 'slice::sort_by_key with a key closure -> stub (stable permutation sorted by start offset)', count=None)
     im.resub(r'input_line\s*\.get\(((?:(?!\.\.)[^\n])+?)\.\.((?:(?!\.\.)[^\n])+?)\)\s*\.unwrap_or\(command\.as_str\(\)\)', r'str_get_or(input_line, \1, \2, command.as_str())', 'R19', 'str::get(range).unwrap_or(fallback) -> stub (None unless both ends are character boundaries within the text)', count=None)
     im.resub(r'str_get_or\(input_line, ([^,]+), (\w+(?:\.\w+)*)\.saturating_sub\(1\), command', r'str_get_or(input_line, \1, if \2 >= 1 { \2 - 1 } else { 0 }, command', 'R19', 'usize::saturating_sub(1) spelled out', count=None)
